@@ -60,7 +60,7 @@ fn closed_space(prop: &str, space: &str, flag: &str, rule: &str, tier: &str, out
 }
 
 const CONV_RULE: &str = "settings conversions: Bump::with_settings, BumpScope::with_settings (by value) and borrow_mut_with_settings for a product of source settings x target settings (minimum alignment 1/4/16 lowered and raised, guaranteed-allocated and claimable switched on/off, both directions) x arena state {allocated with a misaligned position, unallocated, claimed by a leaked guard}; a conversion must panic exactly when the target needs an allocated / unclaimed arena and the source is not, afterwards the position is a multiple of the new minimum alignment, earlier data is intact and the next allocation works; non-trivial = the conversion raises the minimum alignment, or the source is unallocated / claimed";
-const FWD_RULE: &str = "forwarded methods: every value-level allocation method (alloc, alloc_with, alloc_default, alloc_slice_move / copy / clone / fill / fill_with, alloc_str, alloc_fmt(_mut), alloc_cstr, alloc_cstr_from_str, alloc_cstr_fmt(_mut), alloc_iter, alloc_iter_exact, alloc_iter_mut(_rev), alloc_uninit, alloc_uninit_slice(_for), alloc_try_with(_mut), reserve) x entry point {Bump inherent, BumpScope inherent, trait method on BumpScope, trait method on &Bump / &mut Bump; each panicking and try_} x 4 configurations (both directions, MIN_ALIGN 1 / 8 / 16) x prelude {empty arena, misaligned position, 5 bytes left in the chunk}; every entry point must produce the result at the same chunk offset with the same contents and leave the same allocated(), remaining() and chunk sizes as the trait method on BumpScope; non-trivial = non-empty prelude";
+const FWD_RULE: &str = "forwarded methods: every value-level allocation method (alloc, alloc_with, alloc_default, alloc_slice_move / copy / clone / fill / fill_with, alloc_str, alloc_fmt(_mut), alloc_cstr, alloc_cstr_from_str, alloc_cstr_fmt(_mut), alloc_iter, alloc_iter_exact, alloc_iter_mut(_rev), alloc_uninit, alloc_uninit_slice(_for), alloc_try_with(_mut), reserve; and the first 15 again with an 8-aligned zero-sized element type, where only the effect on the arena is compared) x entry point {Bump inherent, BumpScope inherent, trait method on BumpScope, trait method on &Bump / &mut Bump; each panicking and try_} x 4 configurations (both directions, MIN_ALIGN 1 / 8 / 16) x prelude {empty arena, misaligned position, 5 bytes left in the chunk}; every entry point must produce the result at the same chunk offset with the same contents and leave the same allocated(), remaining() and chunk sizes as the trait method on BumpScope; non-trivial = non-empty prelude";
 const CLAIMCOLL_RULE: &str = "collections created before a claim: {BumpVec, BumpString} x 4 configurations x initial length 0..4 x spare capacity {as created, none} x guard activity {nothing, small allocation, chunk-growing allocation, scoped allocation, nested claim} x operation on the old collection during the claim {none, try_push, try_reserve, try_extend, push, reserve, pop, truncate, shrink_to_fit, read} x guard end {drop, unwind}; growth that needs memory must fail (Err / unwinding panic) and leave the contents alone, operations that need no memory behave as usual, after the claim the collection still holds its contents, keeps working (40-60 more pushes) and the blocks allocated through the guard are intact; non-trivial = a growth request was refused or the guard did something. Plus every allocating method x every kind of shared handle to the claimed original: {allocate_layout, allocate_sized, allocate_slice, allocate_slice_for, prepare_slice_allocation(_rev), reserve, Allocator::allocate, and 18 value-level methods alloc .. alloc_iter_exact} x {&Bump, &BumpScope, &dyn BumpAllocatorCore, &dyn BumpAllocatorCoreScope, WithoutDealloc(&Bump), WithoutShrink(&Bump), &&Bump} x {try_ twin: must return Err; panicking twin: must unwind - an abort is a process crash and reported as such} x guard state {idle, small allocation, chunk-growing allocation} x 4 configurations; nothing about the claimed arena may change, the base allocator is not reached, and after the guard is dropped the original allocates again with all earlier data intact";
 
 fn main() {
